@@ -430,6 +430,11 @@ def run(ck):
                 ck.violation({"kind": "model-side check fails (statement of a theorem is false of the model on this case)", "check": what,
                               "result": r, "cfg": items[i][0].line(), "events": [list(e) for e in items[i][1]]}, no_input=True)
 
+    # implementation-side only (no model counterpart): the application restarts the consumer from a callback of the start
+    # Deferred at the moment stop() fires it; the nested start's first request may fail at once - the retry must be armed
+    rruns, rrestarts, rfail = L.restart_cb_family(ck, rnd, L.RESTART_PRES, 1 * scale)
+    ck.cov["restart_from_start_callback_runs"] = {"runs": rruns, "restarts_made": rrestarts, "failing": rfail}
+
     if thorough:
         ck.coqchk(["AV.Props.C14"])
     ck.cov["rule"] = ("seeded (random.Random(VERIF_SEED)) event sequences over the 14-event alphabet of Model/Consumer.v, state-aware "
@@ -463,6 +468,8 @@ def c14_alphabet(drv):
 
 def replay(rp):
     import json
+    if rp.get("replay_op") == "restartcb":
+        return L.replay_restart_cb(rp)
     if rp.get("replay_op") != "case":
         print(json.dumps(rp, indent=1, default=repr)[:4000])
         return 1
